@@ -380,7 +380,14 @@ func printJSONDate(data []byte, toplevel bool, result *bytes.Buffer) error {
 }
 
 func printJSONTime(data []byte, toplevel bool, result *bytes.Buffer) error {
-	raw := binary.LittleEndian.Uint64(data[:8])
+	// The packed value is a signed integer: a negative time is the
+	// two's complement of its absolute value, fraction included.
+	packed := int64(binary.LittleEndian.Uint64(data[:8]))
+	negative := packed < 0
+	if negative {
+		packed = -packed
+	}
+	raw := uint64(packed)
 	value := raw >> 24
 	hour := (value >> 12) & 0x03ff // 10 bits starting at 12th
 	minute := (value >> 6) & 0x3f  // 6 bits starting at 6th
@@ -391,7 +398,7 @@ func printJSONTime(data []byte, toplevel bool, result *bytes.Buffer) error {
 		result.WriteString("CAST(")
 	}
 	result.WriteString("CAST('")
-	if value&0x8000000000 != 0 {
+	if negative {
 		result.WriteByte('-')
 	}
 	fmt.Fprintf(result, "%02d:%02d:%02d", hour, minute, second)
